@@ -373,3 +373,17 @@ def check_report(res, base, ar, rec, acts, report, method, o, case):
             if not same_fig(ar, kv['Total'], n) and method == 'wigm':
                 res.fail('report-total-ballots', 'report-total-ballots|' + base, 'Total %s, Ballots %s' % (kv['Total'], n))
                 return
+
+
+# ---- thorough tier: exhaustive small scope (enumeration inside the same harness and oracle)
+EXTRA_EXHAUSTIVE = {'quick': False, 'thorough': False}     # the small scope is complete; the generated part is a sample
+
+
+def extra_chunks(tier, seed):
+    from .. import smallscope
+    return smallscope.chunks(model.ALL_RULES) if tier == 'thorough' else []
+
+
+def extra_cases(tier, seed, chunk):
+    from .. import smallscope
+    return smallscope.cases(chunk, decorate=None)
